@@ -501,6 +501,15 @@ func (w *World) opImportScript(kind string) *Op {
 	op := &Op{Kind: "import" + kind, Mutates: true, Name: fmt.Sprintf("import %s %v secret=%v -> %s", kind, s, secret, e.Str)}
 	if secret {
 		w.secret("imported-script "+e.Str, script)
+	} else {
+		// a script imported as not secret is still public material (it holds
+		// public keys, the address follows from it): it is sealed under the
+		// public crypto key and must not appear in the file in the clear while
+		// no transaction is recorded
+		w.public("imported-public-script "+e.Str, script)
+		if len(script) > 36 {
+			w.public("public key inside imported public script "+e.Str, script[2:35])
+		}
 	}
 	if secret {
 		switch {
@@ -619,6 +628,22 @@ func (w *World) opDerivePath() *Op {
 				op.CacheKeyWrong = true
 			}
 			op.CacheFilled = true
+			// a careful caller wipes the key it was handed once it has signed; the
+			// next callers (cache hits) must still get the real key, and wiping
+			// theirs must not reach back into the cache either
+			for round := 0; round < 2; round++ {
+				k2, err := sm.DeriveFromKeyPathCache(kp)
+				if err != nil {
+					return fmt.Errorf("DeriveFromKeyPathCache (cache hit) while unlocked: %w", err)
+				}
+				if !eq(k2.Serialize(), e.Priv) {
+					op.CacheKeyWrong = true
+				}
+				k2.Zero()
+			}
+			if k3, err := sm.DeriveFromKeyPathCache(kp); err != nil || !eq(k3.Serialize(), e.Priv) {
+				op.CacheKeyWrong = true
+			}
 		}
 		return nil
 	}
